@@ -49,6 +49,7 @@
 template class std::allocator<char>;
 template class std::basic_string<char>;
 #endif
+#include "strmodel.h"    /* optional (-DVF_STRMODEL): fixed-capacity model of std::string for the encoding */
 #define VF_IOMODEL_DEFINE 1
 #include "iomodel.h"      /* capture model of iostream; renames ostream/cout/cerr/... for the code below */
 #define private public
